@@ -21,6 +21,8 @@
 #include "routes.hpp"
 
 #include <atomic>
+#include <csignal>
+#include <unistd.h>
 #include <cstdint>
 #include <cstdio>
 #include <cstdlib>
@@ -229,7 +231,20 @@ static std::vector<c16::Animal*> make_strays(std::integer_sequence<int, I...>) {
     return {new StrayN<I>()...};
 }
 
+// The unregistered variant is a real race on the hash table: it can corrupt the
+// bucket chains and spin for ever. Give up after a few seconds, keeping the
+// ThreadSanitizer reports already written to stderr.
+static void vmap_alarm(int) {
+    static const char msg[] =
+        "RESULT vmap hung (hash table corrupted by the race; gave up after 8 s)\n";
+    ssize_t ignored = write(1, msg, sizeof(msg) - 1);
+    (void)ignored;
+    _exit(0);
+}
+
 static int vmap_experiment(bool registered, int threads, int iters) {
+    std::signal(SIGALRM, vmap_alarm);
+    alarm(8);
     update<c16::vmap_policy>();
     std::vector<c16::Animal*> objs;
     if (registered) {
